@@ -375,14 +375,27 @@ func Event(s string) {
 
 // Go starts f on a new controlled thread when called from a controlled thread; otherwise it
 // is a plain go statement.
-func Go(f func()) { GoNamed("", f) }
+func Go(f func()) {
+	if Self() == nil {
+		goUncontrolled(f) // rewritten `go` statements outside a controlled run stay plain goroutines (see uncontrolled.go)
+		return
+	}
+	GoNamed("", f)
+}
+
+var plainWG sync.WaitGroup
 
 // GoNamed is Go with a thread name; it returns the new controlled thread (nil when the caller
 // is not controlled) so that the harness can WaitFor it.
 func GoNamed(name string, f func()) *Thread {
 	t := Self()
 	if t == nil {
-		go f()
+		// free-running mode (race pass): a real goroutine that Join/WaitFor wait for
+		plainWG.Add(1)
+		go func() {
+			defer plainWG.Done()
+			f()
+		}()
 		return nil
 	}
 	e := ex
@@ -405,6 +418,7 @@ func GoNamed(name string, f func()) *Thread {
 func WaitFor(ts ...*Thread) {
 	t := Self()
 	if t == nil {
+		plainWG.Wait()
 		return
 	}
 	e := ex
@@ -436,6 +450,7 @@ func (e *execution) exit(t *Thread) {
 func Join() {
 	t := Self()
 	if t == nil {
+		plainWG.Wait()
 		return
 	}
 	e := ex
